@@ -3,6 +3,7 @@ from numpy's PCG64 seeded by (VERIF_SEED, profile, index); execution never
 consults a PRNG again."""
 import numpy as np
 
+from .clock import T0
 from .util import stable_hash
 
 INF = float("inf")
@@ -181,14 +182,14 @@ def quiet_params(kw):
 def gen_clock(rng, n=4000, kind=None):
     kind = kind or str(rng.choice(["const", "tick", "random", "stall-jump"]))
     if kind == "const":
-        return {"t0": 1000.0, "steps": [], "tail": 0.0}
+        return {"t0": T0, "steps": [], "tail": 0.0}
     if kind == "tick":
-        return {"t0": 1000.0, "steps": [], "tail": float(rng.choice([0.001, 0.06, 0.3]))}
+        return {"t0": T0, "steps": [], "tail": float(rng.choice([0.001, 0.06, 0.3]))}
     if kind == "random":
         steps = rng.choice([0.0, 0.0, 0.01, 0.3, 0.07], size=n).tolist()
-        return {"t0": 1000.0, "steps": steps, "tail": 0.01}
+        return {"t0": T0, "steps": steps, "tail": 0.01}
     steps = rng.choice([0.0, 0.0, 0.0, 0.01, 0.3, -0.2, 5.0], size=n, p=[0.3, 0.2, 0.1, 0.2, 0.1, 0.05, 0.05]).tolist()
-    return {"t0": 1000.0, "steps": steps, "tail": 0.0}
+    return {"t0": T0, "steps": steps, "tail": 0.0}
 
 
 def gen_obs(rng):
@@ -207,7 +208,7 @@ def base_world(seed, profile, index, spec, x0, y0, params, clock=None, obs=None,
         "x0": x0,
         "y0": y0,
         "params": params,
-        "clock": clock or {"t0": 1000.0, "steps": [], "tail": 0.0},
+        "clock": clock or {"t0": T0, "steps": [], "tail": 0.0},
         "obs": obs or silent_obs(),
         "faults": faults or [],
         "solver": solver,
